@@ -221,8 +221,7 @@ def gen_spec(rng, N, entry=None, source=None, in_memory=None, allow_int=True, ha
         source = str(rng.choice(["object", "file"]))
     if in_memory is None:
         in_memory = bool(rng.random() < 0.25)
-    if in_memory and source == "file":
-        source = "object"       # in_memory means the samples ARE in memory (JokerSamples); a file name is invalid
+    # (in_memory=True with a file name is a valid combination: "Load all prior samples ... in memory")
     spec = dict(entry=entry, source=source, in_memory=in_memory, opts={})
     o = spec["opts"]
     nb = [None, 1, 2, 3, int(rng.integers(1, N + 4)), N, N + 3][int(rng.integers(0, 7))]
